@@ -84,7 +84,9 @@ def run(ctx: Context) -> None:
                  ("C07.R2", "wait/assign/clear protocol of the per-request event; FIFO scan"),
                  ("C07.R3", "retry handler clears the assignment and re-runs the pass"),
                  ("C07.R4", "no blocking under the pool lock"),
-                 ("C07.R5", "wait-for graph acyclic")):
+                 ("C07.R5", "wait-for graph acyclic"),
+                 ("C07.R6", "no fault point leaves a protocol connection in a transient state (shared with C05.R2): the slot would be lost for every waiter"),
+                 ("C07.R7", "establishment faults mark the connection failed / close it (shared with C05.R3)")):
         rep.rule(r, t)
     for tree, N in trees(ctx):
         t = N.t
@@ -162,6 +164,12 @@ def run(ctx: Context) -> None:
             rep.ob("C07.R3", fkey(tree, ph, "retry-clears-and-reassigns"), okc and okp, where(ph, h),
                    "the handler clears the assignment and the next wait is preceded by a new assignment pass" if okc and okp else
                    f"after ConnectionNotAvailable the request is {'not cleared' if not okc else 'not re-assigned before waiting'}: it would wait on / reuse the unavailable connection forever")
+        # R6/R7: capacity is never lost for good - the typestate-coverage and establishment-marking rules of C05 are
+        # necessary conditions of progress as well (a connection stuck CONNECTING / NEW / ACTIVE holds its slot forever)
+        from .c05 import _r2 as typestate_coverage, _r3 as establishment_marking
+
+        typestate_coverage(ctx, tree, N, rule="C07.R6")
+        establishment_marking(ctx, tree, N, rule="C07.R7")
         no_blocking_under_pool_lock(ctx, "C07.R4", tree, N)
         wait_for_cycles(ctx, "C07.R5", tree, N)
     rep.assume("Event.set() / list operations / constructors do not block")
